@@ -156,6 +156,7 @@ def run(ctx):
     rule_patterns(ctx, mod, model)
     rule_degree(ctx, mod, model)
     rule_recognition(ctx, mod, model)
+    rule_after_edited_keys(ctx, mod)
     ctx.floor("R-C05-A", 100)
     ctx.floor("R-C05-D", 100)
     ctx.floor("R-C05-6", 17 * 2)
@@ -454,3 +455,38 @@ def rule_recognition(ctx, mod, model):
     ok = isinstance(res_second, list) and isinstance(res_all, list) and res_second == res_all
     ctx.check(ok, R, "scope.descending-append", fi.where(), "determine: name appended when only the descending set matches",
               "a match on the descending set alone must give the same name as a match on the ascending set")
+
+
+def rule_after_edited_keys(ctx, mod):
+    """The key-built scales read the notes of their key: a caller who asked for those notes before -- first of all callers,
+    with a cold table -- and edited the list it got must not change what the scales are (real keys.get_notes, real classes)."""
+    R = "R-C05-A"
+    kmod = ctx.repo.mod("mingus.core.keys")
+    gn = kmod.func("get_notes")
+    cases = [("Eb", "Major", [0, 2, 4, 5, 7, 9, 11]), ("A", "HarmonicMajor", [0, 2, 4, 5, 7, 8, 11]), ("f#", "NaturalMinor", [0, 2, 3, 5, 7, 8, 10]),
+             ("c", "HarmonicMinor", [0, 2, 3, 5, 7, 8, 11]), ("bb", "MelodicMinor", [0, 2, 3, 5, 7, 9, 11])]
+    for key, cname, steps in cases:
+        ci = mod.cls(cname)
+        tonic = key[0].upper() + key[1:]
+
+        def go(it, key=key, ci=ci, tonic=tonic):
+            first = it.call_function(gn, [key], {})
+            if isinstance(first, list):
+                first.reverse()
+                first.append("X")
+            sc = it.call(AClass(ci), [tonic], {}, None)
+            return it.call_method(sc, "ascending", [], {}, None)
+        try:
+            ps = explore(lambda ch: Interp(ctx.repo, ch, max_depth=40), go)
+        except CannotDecide as e:
+            raise AnalysisError("%s(%r) after the key's notes were asked for and edited: %s" % (cname, tonic, e))
+        ok, why = len(ps) == 1 and ps[0].kind == "return" and isinstance(ps[0].value, list), "outcome %s" % [(p.kind, short(repr(p.value), 80)) for p in ps]
+        if ok:
+            got = ps[0].value
+            letters = [nd.letter_up(tonic[0], k) for k in range(7)] + [tonic[0]]
+            base = nd.pitch_of_concrete(tonic)
+            want_pc = [(base + st) % 12 for st in steps] + [base % 12]
+            if not all(isinstance(n, str) and n for n in got) or [n[0] for n in got] != letters or [nd.pitch_of_concrete(n) % 12 for n in got] != want_pc:
+                ok, why = False, "%s(%r).ascending() is %s after a caller reversed and extended the list keys.get_notes(%r) gave it" % (cname, tonic, got, key)
+        ctx.check(ok, R, "%s[%s|after the key's notes were edited]" % (cname, tonic), mod.cls(cname).methods["ascending"].where() if "ascending" in mod.cls(cname).methods else mod.relpath + ":0",
+                  "keys.get_notes(%r) (cold), the answer edited, then %s(%r).ascending()" % (key, cname, tonic), why)
